@@ -28,14 +28,40 @@ func (s *Struct) expBuilder() bool { return s.expValue() || s.Ann["@fp.Builder"]
 func (s *Struct) expTuple() bool   { return s.NApp() < 22 }
 func (s *Struct) expJSON() bool    { return s.expValue() && s.Ann["@fp.Json"] }
 
-// ExpectsNothing: gombok is expected to emit nothing at all for the struct (an @fp.Value
-// struct without applicable fields).
+// ExpectsNothing: gombok is expected to emit nothing at all for the struct: no annotation of it has
+// anything to generate (an @fp.Value struct without applicable fields; @fp.Getter / @fp.With without
+// a private field; @fp.GetterPubField / @fp.WithPubField without a public field; @fp.Json /
+// @fp.JsonTag / @fp.GenLabelled, which only modify @fp.Value; @fp.Deref on a struct declaration,
+// which has no right-hand-side type to forward to).
 func (s *Struct) ExpectsNothing() bool {
-	if s.NApp() > 0 {
-		return false
+	priv, pub := false, false
+	for _, f := range s.Fields {
+		if f.Public() {
+			pub = true
+		} else {
+			priv = true
+		}
 	}
 	for a := range s.Ann {
-		if a != "@fp.Value" && a != "@fp.Json" && a != "@fp.JsonTag" && a != "@fp.GenLabelled" {
+		switch a {
+		case "@fp.Value":
+			if s.NApp() > 0 {
+				return false
+			}
+		case "@fp.Getter", "@fp.With":
+			if priv {
+				return false
+			}
+		case "@fp.GetterPubField", "@fp.WithPubField":
+			if pub {
+				return false
+			}
+		case "@fp.Deref":
+			if s.Derived != "" {
+				return false
+			}
+		case "@fp.Json", "@fp.JsonTag", "@fp.GenLabelled":
+		default:
 			return false
 		}
 	}
